@@ -7,6 +7,9 @@
     byte stream cut at arbitrary offsets - is exercised end to end on generated
     configurations every run (harness e2e). *)
 From FV Require Import Base.Serial Frame.SessionSplit Link.Receiver Proofs.SessionSplitProofs Proofs.ReceiverProofs Proofs.EndToEnd Proofs.Stream.
+From Coq Require Import List.
+From FV Require Import Base.Bytes Codec.Value Codec.Composite Codec.CompositeSpec Frame.Transfer Frame.AmqpFrame Frame.TransferWire Proofs.FrameProofs Proofs.TransferWireProofs.
+Import ListNotations.
 Open Scope N_scope.
 
 (** Whatever the message [m] (any bytes, any length) and whatever the frame size
@@ -57,3 +60,28 @@ Example C01_stream_example :
   let ms := [(0, map N.of_nat (seq 0 700)); (1, []); (2, map N.of_nat (seq 5 1200)); (3, [7])] in
   payloads (concat (snd (rrun (rinit (Auto 3) false 0) (concat (map (fun p => mround 504 30 12 (fst p) (snd p)) ms))))) = map snd ms.
 Proof. exact stream_example. Qed.
+
+(** ** on the wire: the sending transport composed with the receiving frame decoder
+
+    [transfer_perfs] builds the four transfer performatives [encode_transfer] writes (as given / more
+    := true / per-delivery fields cleared / cleared with the caller's more) with the model of the
+    typed layer; [transfer_layout] is what C06_transfer_frames establishes for the chunks the encoder
+    puts on the wire.  For every channel, every admissible transfer field vector, every payload and
+    every frame limit: each chunk is read by the model of the receiving FrameDecoder as a transfer
+    performative with exactly the expected fields - the first frame carries the delivery-id, tag,
+    format and settled flag, the later ones do not, all but the last say more = true - and the payload
+    parts read, in order, concatenate to the payload. *)
+Theorem C01_wire_transfer_read_back :
+  forall m ch vs p payload chunks fuel,
+    ch < 65536 -> fields_ok (s_fields transfer_schema) vs = true ->
+    Forall (fun v => (depth v <= fuel)%nat) vs -> (1 <= fuel)%nat ->
+    transfer_perfs vs = Some p ->
+    transfer_layout m ch p payload chunks ->
+    (lenN (p_single p) + lenN payload <= m - 4 ->
+       map (dec_frame fuel) chunks = [Ok {| f_channel := ch; f_body := FPerf transfer_schema vs payload |}]) /\
+    (m - 4 < lenN (p_single p) + lenN payload ->
+       exists first mids last,
+         first ++ concat mids ++ last = payload /\
+         map (dec_frame fuel) chunks = map (@Ok frame) (expected_frames ch vs first mids last)).
+Proof. exact transfer_wire_decodes. Qed.
+Print Assumptions C01_wire_transfer_read_back.
